@@ -84,19 +84,41 @@ Definition add_edge_label (tbl : list elabel) (l : elabel) : result (list elabel
   | None => Ok (tbl ++ [l])
   end.
 
-(** [add_edge]: duplicate id -> ValueError; attachment nodes whose id is absent are added;
-    then the label is registered (may raise, nodes stay: F12); then the edge is stored *)
-Definition add_missing_nodes (g : graph) (ns : list node) : graph :=
-  fold_left (fun g n => if has_node_id g (n_id n) then g else push_node g n) ns g.
+(** [add_edge] (after the fix commits 349378f.. of /repo): duplicate edge id -> ValueError; a
+    different label of the same name -> ValueError; [_check_new_nodes]: the attachment nodes whose id
+    is not in the graph are added, but an id already used by a DIFFERENT node -> ValueError; all
+    tests come before any mutation (the call fails atomically); then label and edge are stored *)
+Fixpoint find_node_id (ns : list node) (i : id) : option node :=
+  match ns with [] => None | n :: ns => if id_eqb (n_id n) i then Some n else find_node_id ns i end.
+
+Fixpoint check_new_nodes (g : graph) (ns : list node) (new : list node) : option (list node) :=
+  match ns with
+  | [] => Some new
+  | n :: ns =>
+    match (match find_node_id (g_nodes g) (n_id n) with
+           | Some o => Some o
+           | None => find_node_id new (n_id n)
+           end) with
+    | None => check_new_nodes g ns (new ++ [n])
+    | Some o => if node_eqb o n then check_new_nodes g ns new else None
+    end
+  end.
+
+Definition label_clash (tbl : list elabel) (l : elabel) : bool :=
+  match find_label tbl (l_name l) with Some l' => negb (elabel_eqb l' l) | None => false end.
 
 Definition add_edge (g : graph) (e : edge) : graph * option err :=
   if has_edge_id g (e_id e) then (g, Some ValueErr)
-  else
-    let g1 := add_missing_nodes g (e_att e) in
-    match add_edge_label (g_elabs g1) (e_label e) with
-    | Err k => (g1, Some k)
-    | Ok tbl => (mkGraph (g_nodes g1) (g_edges g1 ++ [e]) (g_ext g1) tbl, None)
-    end.
+  else if label_clash (g_elabs g) (e_label e) then (g, Some ValueErr)
+  else match check_new_nodes g (e_att e) [] with
+       | None => (g, Some ValueErr)
+       | Some news =>
+         let g1 := mkGraph (g_nodes g ++ news) (g_edges g) (g_ext g) (g_elabs g) in
+         match add_edge_label (g_elabs g1) (e_label e) with
+         | Err k => (g1, Some k)
+         | Ok tbl => (mkGraph (g_nodes g1) (g_edges g1 ++ [e]) (g_ext g1) tbl, None)
+         end
+       end.
 
 (** * replace_edge *)
 Definition nmap := list (node * node).
@@ -510,6 +532,17 @@ Definition replace_ok (host : graph) (e : edge) (repl : graph) (res : graph) (nm
   && is_prefix elabel_eqb (g_elabs host) (g_elabs res)
   && forallb (fun rg => memb elabel_eqb (g_elabs res) (e_label (snd rg))) em.
 
+(** [start_graph]: one edge labelled by the start symbol attached to pairwise distinct nodes of
+    the right labels, nothing else, no external nodes *)
+Definition start_ok (s : elabel) (g : graph) : bool :=
+  match g_edges g with
+  | [e] => elabel_eqb (e_label e) s && list_eqb node_eqb (e_att e) (g_nodes g)
+           && list_eqb Nat.eqb (map n_label (g_nodes g)) (l_type s)
+           && nodupb id_eqb (map n_id (g_nodes g))
+           && match g_ext g with [] => true | _ => false end
+  | _ => false
+  end.
+
 (** rename a graph through given namings of its nodes and edges *)
 Definition rename_edge (nn : list (node * name)) (en : edge * name) : option dedge :=
   match omap (aget node_eqb nn) (e_att (fst en)) with
@@ -532,6 +565,7 @@ Definition same_upto_naming (g : graph) (nn : list (node * name)) (en : list (ed
   list_eqb node_eqb (map fst nn) (g_nodes g)
   && list_eqb edge_eqb (map fst en) (g_edges g)
   && nodupb id_eqb (map n_id (g_nodes g))
+  && nodupb id_eqb (map e_id (g_edges g))
   && nodupb name_eqb (map snd nn)
   && nodupb name_eqb (map snd en)
   && match rename_graph nn en with
